@@ -190,3 +190,8 @@ PROPS["C09"]["rule"] += (" Enumerative part: the full product described under ex
 
 PROPS["C04"]["rule"] = PROPS["C04"]["rule"].replace("distinct by (function, which flag and side, outcome, refund flag).", "distinct by (function, which flag and side, outcome, refund flag, call type, caller kind, #args, delivery or not, generator shape labels). One history in three also runs on a shadow world that gets an extra freeze;unfreeze or pause;unpause pair at a drawn step, after which results and decoded ledgers must stay identical (counters shadow_* under extra).")
 PROPS["C09"]["rule"] = PROPS["C09"]["rule"].replace("distinct by (function, reason/side, outcome, call type, #args).", "distinct by (function, reason/side, outcome, call type, #args, caller kind, generator shape labels).", 1)
+
+PROPS["C12"]["technique"] += "; plus rapid-generated ledger histories in which every data string emitted by the built-in functions' own encoder must parse to what was encoded"
+PROPS["C12"]["rule"] += (" Engine part: generated histories (transfer-heavy, attached calls, deliveries) through the world simulator; a call is non-trivial when it emits a "
+                         "non-empty data string; distinct by (function, side, #args, shape labels). Function names for the round trips are also drawn as raw bytes (any byte but '@').")
+PROPS["C12"]["assumptions"] = ENGINE_ASSUMPTIONS
